@@ -10,9 +10,9 @@ files, with a kernel-evaluated certificate `<name>_dim : Expr.dim Γ <name> = .i
 the length unit) of the hook / junction / residual / argument it stands for, relative to the declared variable typing `Γ`
 (`gammaTable`).  A table row (`Dims.Entry Γ`) carries its certificate, so a changed formula whose dimension no longer comes
 out as declared cannot stay in its table: it moves to `inhomogeneous`, every row of which must be one of the `accepted`
-exceptions (`inhomogeneous_accepted`).  The tables are written for the source AS REPAIRED; the one repair of a listed
-finding that is not in /repo yet (face test of `SplineGroove`) is covered by `acceptedPendingRepair` /
-`spline_face_test_form`, so that the file builds against both source forms.
+exceptions (`inhomogeneous_accepted`).  The tables are written for the source AS REPAIRED: no repair of a listed finding is
+pending (`acceptedPendingRepair` is empty), the face test of `SplineGroove` is the relative one (/repo 53b0ef0,
+`spline_face_test_form`), and a return of the absolute form `np.isclose(y, 0)` does not build.
 
 `scaleEnv Γ k ρ` is the environment `ρ` with every variable `v` multiplied by `k ^ Γ(v)`: all length inputs scaled by `k`,
 areas by `k²`, …, angles / stresses / times / frequencies / material data untouched.  The metatheorem
@@ -219,7 +219,7 @@ def stopTerm : Expr := .sub (.abs (.sub (.var "prior_velocities") (.var "current
     and on the junction coordinates of the generic groove, the absolute stop test `0.01` of the velocity loops.  An
     exception is accepted as the tolerance it is now, not as a place where any tolerance may stand.
     (No longer exceptions: the chord buffers of `Profile.local_width/local_height` - relative since /repo 9e95dfa - and the
-    face tests of `SplineGroove`, see `acceptedPendingRepair`.) -/
+    face tests of `SplineGroove` - relative since /repo 53b0ef0, see `retiredSplineFaceTests`.) -/
 def acceptedRepaired : List (String × Expr) :=
   [("profile/hookimpls.py:astm_grain_size_number#alt0",
      .add (.nat 1) (.div (.log (.div (.div (.nat 1) (.mul .pi (.pow (.div (.div (.var "grain_size") (.dec 254 4))
@@ -240,12 +240,16 @@ def acceptedRepaired : List (String × Expr) :=
    ("sequence/sequence.py:PassSequence.solve_velocities_backward:cmp#1", stopTerm),
    ("sequence/sequence.py:PassSequence.solve_velocities_forward:cmp#1", stopTerm)]
 
-/-- Exceptions that exist ONLY in the source form before the repair of a listed finding has landed in /repo
-    (`KNOWN_FINDINGS.txt`, key `tworun-spline-face-thin-fillet`): the three face tests `np.isclose(y, 0)` of
-    `SplineGroove.__init__`.  The repaired source tests `|y| ≤ 1e-9 · extent` instead (`SplineFaceRepaired` below) and these
-    rows vanish.  `spline_face_test_form` says that the generated tables are in exactly one of the two forms; once the
-    repair is in /repo this list is to be emptied (then a return of the absolute test breaks `inhomogeneous_accepted`). -/
-def acceptedPendingRepair : List (String × Expr) :=
+/-- Exceptions that exist ONLY in the source form before the repair of a listed finding has landed in /repo.  EMPTY: the
+    repair of `tworun-spline-face-thin-fillet` is in /repo (53b0ef0), so the three face tests `np.isclose(y, 0)` of
+    `SplineGroove.__init__` it used to hold are no longer accepted - their return (a revert of the repair, seeded change
+    C11-2) puts rows into `inhomogeneous` that break `inhomogeneous_accepted`, `inhomogeneous_terms_pinned` and
+    `spline_face_test_form`, and the corpus case `c11_finding_spline_thin_wire.json` replays the effect. -/
+def acceptedPendingRepair : List (String × Expr) := []
+
+/-- the former exceptions of `SplineGroove.__init__` (key and term of the three absolute face tests `np.isclose(y, 0)` of
+    the source before /repo 53b0ef0): NOT accepted any more, named so that `spline_face_test_form` can say they are gone -/
+def retiredSplineFaceTests : List (String × Expr) :=
   [("grooves/spline.py:SplineGroove.__init__:isclose#1", iscloseTerm (.var "contour_points") (.nat 0)),
    ("grooves/spline.py:SplineGroove.__init__:isclose#2", iscloseTerm (.var "contour_points") (.nat 0)),
    ("grooves/spline.py:SplineGroove.__init__:isclose#3", iscloseTerm (.var "contour_points") (.nat 0))]
@@ -263,7 +267,7 @@ theorem inhomogeneous_accepted : ∀ en ∈ inhomogeneous, en.key ∈ accepted :
   simp only [inhomogeneous, badHooks, badGeom, badClosed, badSites, List.append_nil, List.nil_append,
     List.cons_append, List.forall_mem_cons, List.not_mem_nil, false_imp_iff, implies_true, and_true]
   simp only [accepted, acceptedTerms, acceptedRepaired, acceptedPendingRepair, List.map_cons, List.map_nil,
-    List.cons_append, List.nil_append, List.mem_cons, true_or, or_true, and_self]
+    List.append_nil, List.mem_cons, true_or, or_true, and_self]
 
 theorem inhomogeneous_refuted : ∀ en ∈ inhomogeneous, ¬ Cert Γ en.e en.d := fun en _ => en.bad
 
@@ -287,27 +291,23 @@ def splineFaceTerm : Expr := .sub (.abs (.var "contour_points")) (.mul (.dec 1 9
 def SplineFaceRepaired : Prop :=
   (strCode "grooves/spline.py:SplineGroove.__init__:cmp#3", splineFaceTerm) ∈ decisions.map (fun en => (strCode en.key, en.e))
 
-/-- the generated table `inhomogeneous` holds the three absolute face tests of the unrepaired source -/
-def SplineFacePending : Prop :=
-  ∀ p ∈ acceptedPendingRepair, (strCode p.1, p.2) ∈ inhomogeneous.map (fun en => (strCode en.key, en.e))
-
 instance : Decidable SplineFaceRepaired := by unfold SplineFaceRepaired; infer_instance
-instance : Decidable SplineFacePending := by unfold SplineFacePending; infer_instance
 
-/-- **The source read on this run is in exactly one of the two forms**: either the face test of `SplineGroove` is the
-    relative one - a certified row of `decisions`, and then NO pending exception is used (no row of `inhomogeneous` has one
-    of their keys) - or all three absolute tests are there with the accepted value.  A third form (other tolerance, one test
-    repaired and another not, the test moved out of the translatable subset) fails this theorem. -/
+/-- **The source read on this run has the repaired face test**: the face test of `SplineGroove` is the relative one - key
+    AND value a certified row of `decisions` - and none of the three former absolute tests is back (no row of
+    `inhomogeneous` has one of their keys).  Every other form (the absolute tests of the source before /repo 53b0ef0, another
+    tolerance such as a module-level `FACE_TOLERANCE`, one test repaired and another not, the test moved out of the
+    translatable subset) fails this theorem. -/
 theorem spline_face_test_form :
-    (SplineFaceRepaired ∧ ∀ p ∈ acceptedPendingRepair, strCode p.1 ∉ inhomogeneous.map (fun en => strCode en.key))
-      ∨ (SplineFacePending ∧ ¬ SplineFaceRepaired) := by
+    SplineFaceRepaired ∧ ∀ p ∈ retiredSplineFaceTests, strCode p.1 ∉ inhomogeneous.map (fun en => strCode en.key) := by
   decide +kernel
 
-/-- **the repaired face test is scale invariant**: where the translator found it, a vertex is on the face in one unit of
-    length iff it is in every other (`|y| ≤ 1e-9·extent` ⇔ `|k y| ≤ 1e-9·k·extent`), for all `k > 0` and all contours -/
-theorem spline_face_test_scale_invariant (h : SplineFaceRepaired) (k : ℝ) (hk : 0 < k) (ρ : String → ℝ) :
+/-- **the face test of `SplineGroove` is scale invariant**: a vertex is on the face in one unit of length iff it is in every
+    other (`|y| ≤ 1e-9·extent` ⇔ `|k y| ≤ 1e-9·k·extent`), for all `k > 0` and all contours.  (`splineFaceTerm` is the term
+    the translator read from the source on this run: `spline_face_test_form`.) -/
+theorem spline_face_test_scale_invariant (k : ℝ) (hk : 0 < k) (ρ : String → ℝ) :
     (eval (scaleEnv Γ k ρ) splineFaceTerm ≤ 0 ↔ eval ρ splineFaceTerm ≤ 0) := by
-  obtain ⟨en, hen, heq⟩ := List.mem_map.1 h
+  obtain ⟨en, hen, heq⟩ := List.mem_map.1 spline_face_test_form.1
   have he : en.e = splineFaceTerm := (Prod.mk.inj heq).2
   have hs := sign_invariant en.e en.d en.cert k hk ρ
   rw [he] at hs
@@ -419,20 +419,25 @@ example : 0 < hookFormulas.length ∧ 0 < junctions.length ∧ 0 < residuals.len
     0 < decisions.length ∧ 0 < geomArgs.length ∧ 0 < starts.length ∧ 0 < fixedPointMaps.length ∧
     0 < attrAssignments.length ∧ 0 < inhomogeneous.length := by decide +kernel
 
-/-- the face test of `SplineGroove` with the accepted tolerance: a fillet vertex 1.1·10⁻⁷ m above the face (r = 3 mm sampled
-    every 0.5°, described in metres) is off the face in every unit from metres upwards … -/
+/-- the FORMER face test of `SplineGroove` (`np.isclose(y, 0)`, retired by /repo 53b0ef0): a fillet vertex 1.1·10⁻⁷ m above
+    the face (r = 3 mm sampled every 0.5°, described in metres) was off the face in every unit from metres upwards … -/
 example : ∀ k k' : ℝ, 1 ≤ k → 1 ≤ k' →
     (isClose 1e-8 1e-5 (k * 1.1e-7) (k * 0) ↔ isClose 1e-8 1e-5 (k' * 1.1e-7) (k' * 0)) :=
   isclose_scale_stable 1e-8 1e-5 1.1e-7 0 1 (by norm_num) (by norm_num)
     (Or.inr (by rw [abs_zero, sub_zero, abs_of_pos (by norm_num : (0:ℝ) < 1.1e-7)]; norm_num))
 
-/-- … whereas the fillet of a thin-wire groove (r = 0.1 mm: 3.8·10⁻⁹ m) is a face vertex in metres and not in millimetres
-    (finding 2 of notes/C11.md; the generators of the two-run oracle stay on the side of the example above) -/
+/-- … whereas the fillet of a thin-wire groove (r = 0.1 mm: 3.8·10⁻⁹ m) was a face vertex in metres and not in millimetres
+    (finding 2 of notes/C11.md, fixed; the corpus case `c11_finding_spline_thin_wire.json` replays it on a reverted tree) -/
 example : isClose 1e-8 1e-5 3.8e-9 0 ∧ ¬ isClose 1e-8 1e-5 (1000 * 3.8e-9) (1000 * 0) := by
   constructor <;> unfold isClose <;> norm_num [abs_of_pos]
 
-/-- the generated tables are in one of the two forms (which one depends on the tree the translator read) -/
-example : SplineFaceRepaired ∨ SplineFacePending := spline_face_test_form.elim (fun h => Or.inl h.1) (fun h => Or.inr h.1)
+/-- the generated table `decisions` holds the repaired face test; no exception is pending -/
+example : SplineFaceRepaired ∧ acceptedPendingRepair = [] ∧ acceptedTerms.length = 11 :=
+  ⟨spline_face_test_form.1, rfl, rfl⟩
+
+/-- the face decision of a concrete contour (3.8·10⁻⁹ m above the face, extent 1.13 mm) is the same in metres and millimetres -/
+example (ρ : String → ℝ) : eval (scaleEnv Γ 1000 ρ) splineFaceTerm ≤ 0 ↔ eval ρ splineFaceTerm ≤ 0 :=
+  spline_face_test_scale_invariant 1000 (by norm_num) ρ
 
 /-- the REPAIRED face test on that thin-wire fillet: 3.8·10⁻⁹ m above the face of a contour 1.13 mm wide is off the face
     (tolerance 1.13·10⁻¹² m) in metres and, the test being homogeneous, in every other unit -/
